@@ -102,6 +102,7 @@ func runC14(c *Ctx) {
 	// later packet overwrites the bytes the slower WRITE is still to store
 	checkPageTagging(c, "R9")
 	checkHandleObjectsClosedOnlyByClose(c, "R10")
+	checkWorkersAccountedFor(c, "R11")
 	d := getDispatcher(c, "R1")
 	if d == nil {
 		return
@@ -195,7 +196,31 @@ func runC14(c *Ctx) {
 				snd = s
 			}
 		})
-		c.check(add != nil && (snd == nil || dominates(add, snd)), "R2", "incomingPacket Add", p.Pos(incoming.Pos()),
+		// … and before anything else that hands the packet on: a select with the send in an arm, a goroutine that does
+		// the registration later — and on every path (the count must be there when the dispatcher's Wait looks)
+		early := add != nil
+		if add != nil {
+			eachInstr(incoming, func(in ssa.Instruction) {
+				switch in.(type) {
+				case *ssa.Select, *ssa.Go, *ssa.Send:
+					if !dominates(add, in) {
+						early = false
+					}
+				case *ssa.Return:
+					if isReturn(in) && !dominates(add, in) {
+						early = false
+					}
+				}
+			})
+			for _, a := range incoming.AnonFuncs {
+				eachInstr(a, func(in ssa.Instruction) {
+					if cc := callOf(in); cc != nil && isWGCall(cc, "Add") {
+						early = false // the count is raised by a goroutine, some time later
+					}
+				})
+			}
+		}
+		c.check(add != nil && early && (snd == nil || dominates(add, snd)), "R2", "incomingPacket Add", p.Pos(incoming.Pos()),
 			"working.Add precedes the registration send", "incomingPacket does not call working.Add before everything else")
 		if add != nil {
 			if v, ok := constInt(argsOf(callOf(add))[0]); !ok || v != 1 {
@@ -695,4 +720,76 @@ func checkHandleValidityFromTable(c *Ctx, rule string) {
 		c.check(good, rule, spec.fn+" answers from the handle table alone", p.Pos(fn.Pos()), "found == the table lookup's ok",
 			spec.fn+" can report a handle as not found for a reason other than the table lookup ("+why+"): requests that were sent before the handle's CLOSE and are still queued are refused with EBADF")
 	}
+}
+
+// checkWorkersAccountedFor (C14.R11 / C07.R19 / C11.R16): Serve joins its workers with wg.Wait() before it sweeps the
+// handle table.  That join waits for a worker only if the goroutine that runs the worker loop is the one that calls
+// wg.Done — deferred, inside the goroutine — and wg.Add(1) comes before the go statement.  With Done deferred in the
+// function that merely starts the goroutine, Wait returns at once: the sweep closes files under the queued reads and
+// writes, and a CLOSE sent behind them finds its handle gone.
+func checkWorkersAccountedFor(c *Ctx, rule string) {
+	p := c.P
+	n := 0
+	for _, spec := range []struct{ serve, worker string }{
+		{"(*Server).Serve", "(*Server).sftpServerWorker"},
+		{"(*RequestServer).Serve", "(*RequestServer).packetWorker"},
+	} {
+		serve, worker := p.Func(spec.serve), p.Func(spec.worker)
+		if serve == nil || worker == nil {
+			c.missing(rule, spec.serve+" / "+spec.worker)
+			continue
+		}
+		// the goroutine bodies that run the worker loop: functions under Serve that call the worker
+		var all []*ssa.Function
+		var collect func(f *ssa.Function)
+		collect = func(f *ssa.Function) {
+			all = append(all, f)
+			for _, a := range f.AnonFuncs {
+				collect(a)
+			}
+		}
+		collect(serve)
+		for _, f := range all {
+			calls := false
+			eachInstr(f, func(in ssa.Instruction) {
+				if cc := callOf(in); cc != nil && cc.StaticCallee() == worker {
+					calls = true
+				}
+			})
+			if !calls {
+				continue
+			}
+			n++
+			// f runs as a goroutine
+			var goIn ssa.Instruction
+			if f.Parent() != nil {
+				eachInstr(f.Parent(), func(in ssa.Instruction) {
+					if g, ok := in.(*ssa.Go); ok {
+						if mc, ok := g.Call.Value.(*ssa.MakeClosure); ok && mc.Fn == ssa.Value(f) {
+							goIn = in
+						}
+					}
+				})
+			}
+			doneInside := false
+			eachInstr(f, func(in ssa.Instruction) {
+				if d, ok := in.(*ssa.Defer); ok && isWGCall(&d.Call, "Done") {
+					doneInside = true
+				}
+			})
+			addBefore := false
+			if goIn != nil {
+				eachInstr(f.Parent(), func(in ssa.Instruction) {
+					if cc := callOf(in); cc != nil && isWGCall(cc, "Add") {
+						if _, plain := in.(*ssa.Call); plain && dominates(in, goIn) {
+							addBefore = true
+						}
+					}
+				})
+			}
+			c.check(goIn != nil && doneInside && addBefore, rule, "the goroutine of "+spec.worker+" is counted by the WaitGroup", p.Pos(f.Pos()), "wg.Add(1); go func() { defer wg.Done(); worker }()",
+				"the goroutine that runs "+spec.worker+" is not the one that calls wg.Done (or wg.Add does not precede its start): Serve's wg.Wait() does not wait for the worker, the end sweep closes files while requests sent before are still being served")
+		}
+	}
+	c.check(n >= 2, rule, "worker goroutines", "?", fmt.Sprintf("%d goroutine bodies", n), fmt.Sprintf("only %d goroutine bodies calling the worker loops found under the two Serve functions", n))
 }
